@@ -54,7 +54,9 @@ func (in *interp) clockNow() value {
 		return in.mkTime(uint64(1), int64(ClockLo), in.locSentinel())
 	}
 	if in.fixedClock != nil {
-		return in.mkTime(uint64(1), *in.fixedClock, in.locSentinel())
+		// the monotonic reading follows the fixed wall clock, so that a harness that moves the fixed
+		// clock sees time.Since/Sub advance (same formula in zzvrf/clock_native.go)
+		return in.mkTime(uint64(*in.fixedClock-ClockLo+1), *in.fixedClock, in.locSentinel())
 	}
 	k := in.clockN
 	in.clockN++
